@@ -19,7 +19,17 @@ import (
 	h "github.com/New-JAMneration/JAM-Protocol/internal/verifh"
 )
 
-func run(input string) string { return verifacc.RunC07(strings.Fields(input)) }
+func run(input string) string {
+	if strings.HasPrefix(input, "h ") {
+		return runInner(input) // stream (5): inner-machine calls, inner_c07.go
+	}
+	return verifacc.RunC07(strings.Fields(input))
+}
+
+func gen(rng *h.Rng, tier string, emit func(string)) {
+	verifacc.GenC07(rng, tier, emit)
+	genInner(rng, tier, emit)
+}
 
 func main() {
 	if p := os.Getenv("VERIF_C07_PROF"); p != "" {
@@ -28,5 +38,5 @@ func main() {
 		defer pprof.StopCPUProfile()
 	}
 	debug.SetGCPercent(1000) // many short-lived page buffers per case
-	h.Main(verifacc.GenC07, run)
+	h.Main(gen, run)
 }
